@@ -119,8 +119,19 @@ fn run_socket(chunks: &[&[u8]]) -> Result<SockOutcome, String> {
     let cfg = NetCfg { item_limit: LIMIT, ..Default::default() };
     let w = net::NetWorld::new(cfg)?;
     {
+        // the prelude is a client like any other: a plain set on a fresh server must be answered
         let mut c = w.connect()?;
-        c.step(&w, &Req::store(op::SET, b"k", b"5", 1, 0, 0).bytes())?;
+        let io = c.step(&w, &Req::store(op::SET, b"k", b"5", 1, 0, 0).bytes());
+        let (r, _) = wire::split_responses(&c.got);
+        if io.is_err() || r.len() != 1 || r[0].status != 0 {
+            return Ok(SockOutcome {
+                received: vec![],
+                eof: true,
+                dump: vec![],
+                panics: 0,
+                follow: format!("prelude connection disturbed: {:?}", r.iter().map(|x| x.short()).collect::<Vec<_>>()).into_bytes(),
+            });
+        }
         c.close(&w);
     }
     let p0 = crate::sut::thread_panics();
